@@ -19,8 +19,8 @@
    taint).  Anything else is a VIOLATION. *)
 EXTENDS RankingOps, TraceBase
 CONSTANT AllowedDev
-VARIABLES k, rk, par, st, idxC, idxF, top, stable, taint
-tvars == <<k, rk, par, st, idxC, idxF, top, stable, taint, l>>
+VARIABLES k, rk, par, st, idxC, idxF, top, stable, taint, nd, term
+tvars == <<k, rk, par, st, idxC, idxF, top, stable, taint, nd, term, l>>
 Live == DOMAIN st
 NewId == CHOOSE i \in 0..Cardinality(Live) : i \notin Live /\ \A j \in 0..i-1 : j \in Live    \* ids are reused, smallest free one
 RECURSIVE AncSelf(_)
@@ -40,12 +40,12 @@ Match(e, ST, TP, SB, fresh) ==
   /\ \A b \in DOMAIN ST : AccOf(Obs(e, b)) = ST[b]
   /\ \A b \in DOMAIN ST \ {fresh} : Obs(e, b).top = Pairs(TP[b], ST[b])
 
-TReset == /\ Ev("reset") /\ E.err = ""
+TReset == /\ Ev("reset") /\ "nd" \notin DOMAIN E /\ E.err = ""
           /\ k' = E.k /\ rk' = [c \in 1..E.nc |-> E.rk[c]]
           /\ Cardinality({E.rk[c] : c \in 1..E.nc}) = E.nc
           /\ par' = <<>> /\ st' = (0 :> [c \in 1..E.nc |-> [r |-> 0, v |-> 0]])
           /\ idxC' = (0 :> {}) /\ idxF' = (0 :> {}) /\ top' = (0 :> <<>>) /\ taint' = (0 :> {})
-          /\ stable' = 0
+          /\ stable' = 0 /\ nd' = 0 /\ term' = <<>>
           /\ Match(E, st', top', 0, -1)
 
 \* judge the logged list T of a block with state sn below parent p: the taint of the block, {"-"} = not acceptable
@@ -77,7 +77,7 @@ TBlock == /\ Ev("Block") /\ E.err = ""
                       /\ LET tn == Verdict(T, p, sn, chg, Unreg(st[p], sn, t))
                          IN "-" \notin tn /\ (\A d \in tn : UseDev(d)) /\ taint' = (b :> tn) @@ taint
                       /\ Match(E, st', top', stable, b)
-          /\ UNCHANGED <<k, rk, stable>>
+          /\ UNCHANGED <<k, rk, stable, nd, term>>
 
 TStable == /\ Ev("Stable") /\ E.err = ""
            /\ LET b == E.a[1]
@@ -88,7 +88,7 @@ TStable == /\ Ev("Stable") /\ E.err = ""
                  /\ top' = Restrict(top, keep) /\ taint' = Restrict(taint, keep)
                  /\ stable' = b
                  /\ Match(E, st', top', b, -1)
-           /\ UNCHANGED <<k, rk>>
+           /\ UNCHANGED <<k, rk, nd, term>>
 
 \* a node that has restarted publishes the same list as one that has not: the full sort of the stable state
 TRestart == /\ Ev("Restart") /\ E.err = ""
@@ -99,11 +99,78 @@ TRestart == /\ Ev("Restart") /\ E.err = ""
                   /\ T = Pairs(FullSort(s, rk, k), s)
                   /\ top' = (stable :> Ids(T)) /\ taint' = (stable :> {})
                   /\ Match(E, st', top', stable, -1)
-            /\ UNCHANGED <<k, rk, stable>>
+            /\ UNCHANGED <<k, rk, stable, nd, term>>
 
-TraceNext == TReset \/ TBlock \/ TStable \/ TRestart
+
+(* ---- engine level (driver ranking-node): real nodes, real register / unregister / vote / transfer transactions,
+   params.TermDuration = 4.  The monitor ADOPTS the candidate accounts the real account manager presents for the new
+   block (ledger semantics are C05/C11) and judges
+     - the published list of the block exactly as above (same Verdict, same named deviations);
+     - that the second node, which verified and stabilised the block, publishes the same list;
+     - at snapshot heights block.DeputyNodes = the first nd entries of the PARENT's list, ranked 0..n-1, with the votes
+       of those entries (hence non-increasing), so that every node can load the new term from it: stabilising the block
+       must not fail.  Named deviation Dev_SnapshotVotesFromSealedState: the votes are those of the state of the block
+       being sealed (LoadTopCandidates reads them through the engine's account manager); when that makes them
+       non-monotone the node that stabilises the block panics in deputynode.NewTermRecord, and a verifying node, whose
+       in-flight votes differ from the miner's (balance-driven vote changes are applied later), rejects the block;
+     - that the restarted node serves the same next term as before the restart and publishes the full sort (which is
+       the list of before the restart unless that one carried a named deviation). *)
+AccRows(a) == [c \in 1..Len(a) |-> [r |-> a[c][1], v |-> a[c][2]]]
+Min2(a, b) == IF a < b THEN a ELSE b
+Monotone(D) == \A i \in 1..Len(D) - 1 : D[i][3] >= D[i + 1][3]
+SealedDev == "Dev_SnapshotVotesFromSealedState"
+TNReset == /\ Ev("reset") /\ "nd" \in DOMAIN E /\ E.err = ""
+           /\ k' = E.k /\ nd' = E.nd /\ rk' = [c \in 1..E.nc |-> E.rk[c]]
+           /\ Cardinality({E.rk[c] : c \in 1..E.nc}) = E.nc
+           /\ LET s0 == AccRows(E.acc)
+              IN /\ st' = (0 :> s0) /\ par' = <<>>
+                 /\ idxC' = (0 :> {c \in DOMAIN s0 : s0[c].r # 0}) /\ idxF' = idxC'
+                 /\ E.top = Pairs(FullSort(s0, rk', k'), s0) /\ E.nut_top = E.top
+                 /\ top' = (0 :> Ids(E.top))
+           /\ taint' = (0 :> {}) /\ stable' = 0 /\ term' = <<>>
+DeputiesOK(D, p, sn) ==
+  LET L == top[p]
+      n == Min2(nd, Len(L))
+  IN /\ Len(D) = n
+     /\ \A i \in 1..n : D[i][1] = L[i] /\ D[i][2] = i - 1
+     /\ \/ (\A i \in 1..n : D[i][3] = st[p][L[i]].v) /\ Monotone(D)
+        \/ /\ \E i \in 1..n : D[i][3] # st[p][L[i]].v
+           /\ SealedDev \in AllowedDev
+           /\ \A i \in 1..n : D[i][3] = sn[L[i]].v
+           /\ UseDev(SealedDev)
+SealedCase(D, p) == E.snap /\ \E i \in 1..Len(D) : i <= Len(top[p]) /\ D[i][3] # st[p][top[p][i]].v
+TNBlock == /\ Ev("NBlock") /\ E.err = ""
+           /\ LET p == E.a[1]
+                  b == E.a[2]
+                  sn == AccRows(E.acc)
+                  chg == Changed(st[p], sn)
+                  unreg == {c \in ToSet(E.touched) : sn[c].r = 2}
+                  T == E.top
+              IN /\ p \in Live /\ b \notin Live /\ DOMAIN sn = DOMAIN rk
+                 /\ st' = (b :> sn) @@ st /\ par' = (b :> p) @@ par
+                 /\ idxC' = (b :> idxC[p] \cup chg) @@ idxC /\ idxF' = (b :> idxF[p] \cup chg) @@ idxF
+                 /\ \A i \in 1..Len(T) : T[i][1] \in DOMAIN sn
+                 /\ top' = (b :> Ids(T)) @@ top
+                 /\ LET tn == Verdict(T, p, sn, chg, unreg)
+                    IN "-" \notin tn /\ (\A d \in tn : UseDev(d)) /\ taint' = (b :> tn) @@ taint
+                 /\ IF E.snap THEN DeputiesOK(E.dn, p, sn) ELSE E.dn = <<>>
+                 /\ \/ E.crash = ""
+                    \/ E.crash # "" /\ SealedCase(E.dn, p) /\ ~Monotone(E.dn) /\ SealedDev \in AllowedDev /\ UseDev(SealedDev)
+                 /\ \/ E.nut_err = ""          \* a verifying node re-derives the list with ITS in-flight votes and may reject it
+                    \/ E.nut_err # "" /\ SealedCase(E.dn, p) /\ SealedDev \in AllowedDev /\ UseDev(SealedDev)
+                 /\ (E.fed /\ E.crash = "" /\ E.nut_err = "") => E.nut_stable = b /\ E.nut_top = T
+                 /\ term' = IF E.snap /\ E.fed THEN E.dn ELSE term
+           /\ UNCHANGED <<k, rk, stable, nd>>
+TNRestart == /\ Ev("NRestart") /\ E.err = "" /\ E.crash = ""
+             /\ E.stable \in Live
+             /\ E.top_before = Pairs(top[E.stable], st[E.stable])
+             /\ E.top_after = Pairs(FullSort(st[E.stable], rk, k), st[E.stable])     \* restart: always the full sort
+             /\ E.term_before = term /\ E.term_after = term
+             /\ UNCHANGED <<k, rk, par, st, idxC, idxF, top, stable, taint, nd, term>>
+
+TraceNext == TReset \/ TBlock \/ TStable \/ TRestart \/ TNReset \/ TNBlock \/ TNRestart
 TraceSpec == /\ l = 1 /\ k = 0 /\ rk = <<>> /\ par = <<>> /\ st = <<>> /\ idxC = <<>> /\ idxF = <<>> /\ top = <<>>
-             /\ stable = 0 /\ taint = <<>>
+             /\ stable = 0 /\ taint = <<>> /\ nd = 0 /\ term = <<>>
              /\ [][TraceNext]_tvars
 \* evaluated on every prefix of every real trace: an untainted block publishes the full sort
 TrTopIsFullSort == \A b \in Live : taint[b] = {} => top[b] = FullSort(st[b], rk, k)
